@@ -42,7 +42,19 @@ NULL = uuidlib.UUID(int=0)
 
 
 def gen_expr(rng, ptr=4):
-    return [c14.gen_op(rng, ptr) for _ in range(rng.randrange(1, 4))]
+    ops = [c14.gen_op(rng, ptr) for _ in range(rng.randrange(1, 4))]
+    if rng.random() < 0.4:
+        # what compilers actually emit: a register-relative location with a
+        # (usually negative) offset, and multi-byte constants
+        ops.insert(rng.randrange(0, len(ops) + 1), rng.choice([
+            ("breg", rng.randrange(0, 32),
+             rng.choice([-8, -16, -200, -1, 8, 64, -(1 << 20)])),
+            ("bregx", rng.randrange(0, 70), rng.choice([-8, -4096, 24])),
+            ("const2u", rng.choice([256, 0x1234, 1])),
+            ("const4u", rng.choice([0x10000, 0x12345678])),
+            ("addr", rng.choice([0x401000, 0x1234])),
+        ]))
+    return ops
 
 
 def gen_case(rng, tier, index):
@@ -50,6 +62,11 @@ def gen_case(rng, tier, index):
     order, ptr = ABIS[abi][2], ABIS[abi][3]
     nblocks = rng.randrange(1, 6)
     sizes = [rng.randrange(1, 9) for _ in range(nblocks)]
+    # a zero-sized block stands at the address of the block behind it
+    # (never two in a row: their mutual order would be undefined)
+    for k in range(nblocks - 1):
+        if rng.random() < 0.15 and (k == 0 or sizes[k - 1]):
+            sizes[k] = 0
     nprocs = rng.choice([1, 1, 2, 3, 4])
     seq = []   # flat list of directives in order
     for _ in range(nprocs):
@@ -225,15 +242,21 @@ def gen_case(rng, tier, index):
     for (b, o), g in zip(chosen, groups):
         locs.append([b, o, g])
     return {"abi": abi, "sizes": sizes, "locs": locs, "defect": defect,
-            "shuffle": rng.randrange(1 << 30)}
+            "shuffle": rng.randrange(1 << 30),
+            "undefined_byte_order": rng.random() < 0.3}
 
 
 def build(case):
     isa, _, order, ptr = ABIS[case["abi"]]
     ir = gtirb.IR()
+    # (a module whose byte order was never set is little-endian for the
+    # little-endian-only ISAs)
+    bo = gtirb.Module.ByteOrder.Undefined if (
+        case.get("undefined_byte_order") and case["abi"] in ("x64", "arm64")
+    ) else gtirb.Module.ByteOrder.Little
     m = gtirb.Module(name="t", isa=isa,
                      file_format=gtirb.Module.FileFormat.ELF,
-                     byte_order=gtirb.Module.ByteOrder.Little)
+                     byte_order=bo)
     m.ir = ir
     sec = gtirb.Section(name=".text")
     sec.module = m
@@ -246,7 +269,7 @@ def build(case):
         b = gtirb.CodeBlock(offset=off, size=sz)
         b.byte_interval = bi
         blocks.append(b)
-        off += sz + 4      # gaps for padding are allowed
+        off += sz + (4 if sz else 0)   # gaps for padding are allowed
     syms = {}
     for nme in ("sym0", "sym1"):
         s = gtirb.Symbol(nme, payload=blocks[0])
